@@ -367,6 +367,8 @@ def judge_session(ops, results, rep, probe, V, counts, where="in-process"):
             if nd is not None and sets:
                 ncmp += 1
                 counts["hovers_compared"] += 1
+                if val.get("range") != doc.range_of(nd["s"][0], nd["s"][1]):
+                    V("hover-range-differs", f"hover range {val.get('range')} is not the range of the {nd['k']} node at bytes {nd['s']} ({doc.range_of(nd['s'][0], nd['s'][1])})", wit({"text": ex.text[:800]}))
                 for key in ("first", "follow", "predict", "recovery"):
                     if key in sets and nd.get(key) is not None:
                         if sets[key] != hide_part_eof(nd[key]):
